@@ -244,24 +244,23 @@ pub fn k_module_new_readback_len3() {
 }
 
 // ---- C04: ModuleIter yields exactly the module tags of the walk, in order.
-// Bounded: a 64-byte tag area holding three tags at offsets 0, 24 and 40 with
-// symbolic declared sizes 17..=24, 9..=16 and 17..=24 (i.e. symbolic amounts of
-// padding), ANY type numbers (all 2^96 combinations: which of the three are
-// module tags is symbolic) and all other bytes symbolic.
+// Bounded: a 48-byte tag area holding three tags at offsets 0, 24 and 40:
+// declared sizes 17..=24 (symbolic), 16, and 8; ANY type numbers for the first
+// two (which of them are module tags is symbolic), the third is not a module
+// tag (too small); all other bytes symbolic.
 #[kani::proof]
 #[kani::unwind(6)]
 pub fn k_module_iter() {
-    let bytes = AlignedBytes(kani::any::<[u8; 64]>());
+    let bytes = AlignedBytes(kani::any::<[u8; 48]>());
     let b = &bytes.0;
-    let offs = [0usize, 24, 40];
-    let (s0, s1, s2) = (le32(b, 4) as usize, le32(b, 28) as usize, le32(b, 44) as usize);
-    kani::assume(s0 >= 17 && s0 <= 24 && s1 >= 9 && s1 <= 16 && s2 >= 17 && s2 <= 24);
-    // a module tag needs its 16-byte fixed part
-    kani::assume(le32(b, 24) != 3 || s1 == 16);
-    let is_mod = [le32(b, 0) == 3, le32(b, 24) == 3, le32(b, 40) == 3];
+    let offs = [0usize, 24];
+    let s0 = le32(b, 4) as usize;
+    kani::assume(s0 >= 17 && s0 <= 24 && le32(b, 28) == 16 && le32(b, 44) == 8);
+    kani::assume(le32(b, 40) != 3);
+    let is_mod = [le32(b, 0) == 3, le32(b, 24) == 3];
     let mut it = module_iter(TagIter::new(&b[..]));
     let mut k = 0;
-    while k < 3 {
+    while k < 2 {
         if is_mod[k] {
             let o = offs[k];
             let m = it.next().unwrap();
@@ -273,7 +272,7 @@ pub fn k_module_iter() {
         k += 1;
     }
     assert!(it.next().is_none());
-    kani::cover!(is_mod[0] && !is_mod[1] && is_mod[2]);
-    kani::cover!(!is_mod[0] && !is_mod[1] && !is_mod[2]);
-    kani::cover!(is_mod[0] && is_mod[1] && is_mod[2]);
+    kani::cover!(is_mod[0] && is_mod[1]);
+    kani::cover!(!is_mod[0] && is_mod[1]);
+    kani::cover!(!is_mod[0] && !is_mod[1]);
 }
